@@ -126,14 +126,17 @@ def _run_shard_pyopt(args):
     prop, tier, seed, name, kwargs, budget = args
     kw = {k: v for k, v in kwargs.items() if k != "_pyopt"}
     code = ("import json,sys\nfrom vf import core\nargs=json.loads(sys.stdin.read())\n"
-            "r=core._run_shard(tuple(args))\nr['nontrivial']=sorted(r['nontrivial'])\nr['assertions_stripped']=not __debug__\nsys.stdout.write('\\nVFRESULT'+json.dumps(r))\n")
+            "r=core._run_shard(tuple(args))\nr['nontrivial']=sorted(r['nontrivial'])\nr['assertions_stripped']=not __debug__\nr['bytes_warning']=sys.flags.bytes_warning\nsys.stdout.write('\\nVFRESULT'+json.dumps(r))\n")
     try:
         mode = kwargs["_pyopt"]
+        toks = {"opt"} if mode is True else set(str(mode).split("+"))
         env = dict(os.environ)
         argv = [sys.executable, "-W", "ignore::DeprecationWarning"]
-        if mode in (True, "opt", "opt+hashseed"):
-            argv.insert(1, "-O")
-        if mode in ("hashseed", "opt+hashseed"):
+        if "opt" in toks:
+            argv.insert(1, "-OO" if "hashseed" in toks else "-O")       # assert statements (and, with -OO, docstrings) stripped
+        if "bb" in toks:
+            argv.insert(1, "-bb")                                          # str(bytes) / bytes-vs-str comparison raise BytesWarning
+        if "hashseed" in toks:
             env["PYTHONHASHSEED"] = str(1 + (int(seed) * 7919 + len(name)) % 4000000)      # another string-hash seed than the parent's
         p = subprocess.run(argv + ["-c", code], input=json.dumps([prop, tier, seed, name, kw, budget]).encode(),
                            capture_output=True, timeout=(budget or 600) + 300, env=env)
@@ -145,12 +148,15 @@ def _run_shard_pyopt(args):
         r["crash"] = "python -O child failed: %r" % (e,)
         return r
     r["nontrivial"] = set(r["nontrivial"])
-    if kwargs["_pyopt"] in (True, "opt", "opt+hashseed") and not r.get("assertions_stripped"):
+    if "opt" in toks and not r.get("assertions_stripped"):
         r["crash"] = "child did not run with -O"
+    if "bb" in toks and r.get("bytes_warning") != 2:
+        r["crash"] = "child did not run with -bb"
     r["classes"] = {"pyopt:" + k: v for k, v in r["classes"].items()}
     r["nontrivial"] = {"pyopt:" + k for k in r["nontrivial"]}
+    tag = "[python %s] " % " ".join(x for x in argv[1:] if x in ("-O", "-OO", "-bb")) if (toks & {"opt", "bb"}) else "[other PYTHONHASHSEED] "
     for v in r["violations"]:
-        v["what"] = "[python -O] " + v["what"]
+        v["what"] = tag + v["what"]
     return r
 
 
